@@ -22,6 +22,11 @@ very exception: any other exception class on a status failure is a violation too
 shown no status request is sent and the shown status never changes; the status shown / returned (and the is_*
 predicates) after a step is the canonical meaning of the last status string successfully read (or, when nothing
 was read successfully in the step and no local transition happened, the status shown before the step);
+a sent job that has not shown a final status keeps following the server ("stops polling" only once final): with the
+throttle transparent every status-dependent call (status()/is_*, cancel, rerun, get_results) sends a status request —
+whatever non-final status, UNKNOWN included, the job shows (`stopped-polling-before-final`; in the clocked parts: a
+read more than the refresh delay after the last request must reach the server, execute_sync must not sleep for ever
+without asking);
 results / cancel / rerun are refused and not sent when the status in force at the guard (just read, or kept
 because the read was absorbed / short-circuited) forbids them; an accepted rerun yields another object with
 another id; the "job failed" error of get_results carries the status message of the server answer that said
@@ -82,6 +87,8 @@ MEANING = {"waiting": "WAITING", "running": "RUNNING", "completed": "SUCCESS", "
            "canceled": "CANCELED", "suspended": "SUSPENDED", "cancel_requested": "CANCEL_REQUESTED",
            "unknown": "UNKNOWN"}
 UNFINISHED_NAMES = {"WAITING", "RUNNING", "SUSPENDED", "CANCEL_REQUESTED"}
+NONFINAL_NAMES = UNFINISHED_NAMES | {"UNKNOWN"}     # everything but SUCCESS / ERROR / CANCELED: the job keeps polling
+OP_NAME = {"p": "the status read", "c": "cancel()", "r": "rerun()", "g": "get_results()", "x": "execute_async()"}
 CANCELLABLE_NAMES = {"WAITING", "RUNNING", "SUSPENDED"}
 FAILED_NAMES = {"ERROR", "CANCELED"}
 # is_complete, is_failed, is_success, is_waiting, is_running as functions of the reported status
@@ -478,6 +485,12 @@ def extra_step(world, job, orc, k, op, full, hits, tags):
         tags.add("sync-accepted")
     elif fin == "exc:AssertionError":
         tags.add("sync-refused")
+    if fin == "exc:LoopRunaway":
+        last_s = next((r[1] for r in reversed(served) if r[0] == "s"), None)
+        hits.append(("stopped-polling-before-final", k,
+                     f"step {k}: execute_sync went on sleeping ({len(clock.sleeps)} sleeps) without asking the server "
+                     f"again after {polls} status request(s), the last status read being {last_s!r}: the job stopped "
+                     f"following the server before it reported a final status"))
     wf = op_wf(op)
     for i, r in enumerate(served):
         last = i == len(served) - 1
@@ -611,6 +624,20 @@ def run_history(world: World, ops, full=None):
             orc.creates += nc
         sent_before = cid(job) != "N"
         prev = orc.prev
+        # -- "stops polling" only once a FINAL status was reported: with the throttle transparent (refresh delay -1,
+        #    every read is due) each status-dependent call on a sent job that has not shown SUCCESS / ERROR / CANCELED
+        #    asks the server before it answers — whatever non-final status (UNKNOWN included) it shows
+        if sent_before and orc.final is None and kind != "x":
+            tags.add("poll-required-checked")
+            if prev in NONFINAL_NAMES:
+                tags.add("polled-from-" + prev)
+                if prev == "UNKNOWN" and kind != "p":
+                    tags.add("guard-after-unknown")
+            if not any(c[0] == "S" for c in calls):
+                hits.append(("stopped-polling-before-final", k,
+                             f"step {k}: {OP_NAME[kind]} on job {job.id} showing {prev} (not final) sent no status "
+                             f"request (requests: {','.join(calls) or 'none'}; result {res}): the job stopped "
+                             f"following the server before it reported a final status"))
         last_is_status = bool(calls) and calls[-1][0] == "S"
         # an exception that ends the step right after a status request and is not one of the guards'
         # RuntimeErrors came out of the status read itself
@@ -719,6 +746,9 @@ def run_history(world: World, ops, full=None):
                 tags.add("status-kept-checked")
             elif expect is not None:
                 tags.add("last-read-checked")
+                if prev in NONFINAL_NAMES and expect != prev:
+                    # the two-step shape: a non-final status was shown, the server now says something else
+                    tags.add("moved-on-from-" + prev)
             if expect is not None and sh_same != expect:
                 if last_ok is not None:
                     hits.append(("status-not-last-read", k,
@@ -1220,16 +1250,32 @@ def run_clock(world, clock, reads):
     return outs
 
 
-def clock_oracles(reads, outs):
+def clock_oracles(reads, outs, tags=None):
     """the property statement on the clocked trace, independent of the Lean driver: no status request after a
     final status was shown, and the streak law over the requests that did reach the server.  (Which reads reach
     the server is the throttle: not part of the property statement, compared with the clocked model only.)"""
     hits = []
     fails, final = 0, False
     prev = "WAITING"          # run_clock starts from a job just sent
+    last_req = 0              # quarter seconds: time of the last status request (the job was created at time 0)
+    tags = collections.Counter() if tags is None else tags
     for k, ((q, r), o) in enumerate(zip(reads, outs), 2):
         res, _, sh, calls = o.split("|")
         sent = calls != ""
+        # an unfinished job keeps following the server: a read that comes MORE than the refresh delay after the last
+        # status request (or after the creation) of a job that has not shown a final status reaches the server.
+        # (Reads inside the delay are the throttle's business: compared with the clocked model only.)
+        if not final and q - last_req > DELAY_Q:
+            tags["clock-due-read-checked"] += 1
+            if prev == "UNKNOWN":
+                tags["clock-due-read-after-unknown"] += 1
+            if not sent:
+                hits.append(("stopped-polling-before-final", k,
+                             f"read {k}: status() at t={q / 4.0}s, {(q - last_req) / 4.0}s after the last status "
+                             f"request (refresh delay {DELAY_Q / 4.0}s), on a job showing {prev} (not final) sent no "
+                             f"status request and returned {res}"))
+        if sent:
+            last_req = q
         # the reported status is the last status successfully read; a read that did not reach the server
         # (throttled, final) or failed keeps it
         expect = MEANING.get(r[1]) if sent and r[0] == "s" else prev
@@ -1267,9 +1313,9 @@ def clock_oracles(reads, outs):
     return hits
 
 
-def judge_clock(chk, world, clock, reads):
+def judge_clock(chk, world, clock, reads, tags=None):
     outs = run_clock(world, clock, reads)
-    hits = clock_oracles(reads, outs)
+    hits = clock_oracles(reads, outs, tags)
     rep = chk.lean.ask({"fixed": True, "delay": DELAY_Q, "clock": reads})
     if hits:
         sig, k, what = hits[0]
@@ -1329,10 +1375,14 @@ def gen_clock_reads(rng):
 
 def check_throttle(chk, world, n):
     rng = chk.rng
+    corpus = load_corpus("clock")
     with clocked(world) as clock:
-        for _ in range(n):
-            reads = gen_clock_reads(rng)
-            r, outs = judge_clock(chk, world, clock, reads)
+        for i in range(len(corpus) + n):
+            reads = corpus[i] if i < len(corpus) else gen_clock_reads(rng)
+            tags = collections.Counter()
+            r, outs = judge_clock(chk, world, clock, reads, tags)
+            for t, cnt in tags.items():
+                chk.branch(t, cnt)
             chk.evaluations += 1
             chk.count("source", "throttle")
             for o in outs:
@@ -1656,6 +1706,14 @@ def judge_sync_clock(chk, world, clock, sc):
         return ("broken", "driver-rejects", f"Lean driver rejected the clocked execute_sync: {rep['err']}",
                 {"syncclock": sc})
     mev, mend = model_sync_events(rep)
+    # direct: an unfinished job keeps following the server — a loop that sleeps thousands of times (hundreds of
+    # refresh delays) without a single further status request has stopped polling before a final status
+    if end == "raised:exc:LoopRunaway":
+        return ("violation", "stopped-polling-before-final",
+                f"clocked execute_sync: after {' '.join(real_ev[:40])} the loop went on sleeping "
+                f"{len(clock.sleeps)} times {sc['d'] / 4.0}s (refresh delay {DELAY_Q / 4.0}s) without asking the "
+                f"server again although no final status was read",
+                {"syncclock": sc, "real": [real_ev[:60], end], "model": [mev, mend]})
     # direct: the loop must not poll after a final status, must end on it, and sleeps the configured delay
     if bad_sleep:
         return ("broken", "sync-sleep", f"execute_sync slept {bad_sleep} with refresh_progress_delay {sc['d'] / 4.0}",
@@ -1709,7 +1767,10 @@ def setup(chk):
     chk.lean = core.LeanDriver("C17")
     chk.assumptions = [
         "RemoteJob.STATUS_REFRESH_DELAY is set to -1 by the harness so that every status read is due (main model); "
-        "the throttle is checked separately against the clocked model with a scripted clock and the shipped delay",
+        "the throttle is checked separately against the clocked model with a scripted clock and the shipped delay; "
+        "'keeps polling until final' is judged directly as: with the transparent throttle every status-dependent call "
+        "on a sent job not showing a final status sends a status request, and with the shipped delay a read more than "
+        "the delay after the last request does",
         "the network is replaced at requests.get/requests.post of perceval.runtime.rpc_handler by a scripted fake "
         "returning genuine requests.Response objects; HTTP errors carry codes 400..599; `requests` itself is trusted",
         "server status strings are ASCII; results carry no job_context (result mapping is not exercised); "
@@ -1738,6 +1799,10 @@ def setup(chk):
         "unknown-string", "throttled", "due-read", "whitelist-probe",
         "last-read-checked", "status-kept-checked", "guard-on-kept-status", "queued-body", "cancel-while-queued",
         "cancel-requested-after-queued-cancel", "lifecycle",
+        # an unfinished job keeps polling: every non-final status was shown before a status-dependent call, the server
+        # then said something else, guards were evaluated on a job showing UNKNOWN, overdue clocked reads were judged
+        "poll-required-checked", "guard-after-unknown", "clock-due-read-checked", "clock-due-read-after-unknown",
+        *["polled-from-" + s for s in sorted(NONFINAL_NAMES)], *["moved-on-from-" + s for s in sorted(NONFINAL_NAMES)],
         # the full machine
         "full-history", "to-dict", "to-dict-no-body", "reopen-sent", "reopen-unsent", "reopen-final", "reopen-no-body",
         "resume-read", "resume-fault", "name-empty", "name-not-a-string", "rerun-no-body", "time-type-error",
